@@ -1,4 +1,5 @@
 import ShootVerif.Proofs.Runtime
+import ShootVerif.Proofs.RuntimeHeap
 /-!
 C19 — runtime: NewRest/Register/RestConf and the middleware chain order.
 
@@ -159,5 +160,45 @@ example : trace (buildMiddleware ⟨"", 0, true, none, [1, 2]⟩) =
     [.enter .log, .enter (.mw 1), .enter (.mw 2), .enter .base, .exit .base, .exit (.mw 2), .exit (.mw 1), .exit .log] := by decide
 example : runHist [] [.new 0 [], .reg 0 7, .reg 0 8, .new 0 [.baseURL "x"], .new 1 []] =
     [.panic (.unregistered 0), .registered, .panic (.duplicate 0), .made 7 ⟨"x", 0, false, none, []⟩, .panic (.unregistered 1)] := by decide
+
+/-! ## clients keep the RestConf they were built from
+
+`NewRest` hands the constructor its RestConf BY VALUE and the generated client keeps it (`conf: &conf`). The middleware
+list inside is a Go slice, so "a RestConf holding exactly the supplied options" is a statement about memory: the model
+(`runClients`) keeps every `_middlewares` backing array on a heap — `Use` appends in place while the array has room —
+and the property side (`specClients`) is stated over plain values. -/
+
+/-- headline: for EVERY history of `NewRest[T](opts…)` calls (any types, any options), later `With(o)` calls by the
+    owner of a client on the RestConf it keeps, and later looks at a client (getters, `BuildMiddleware()` built then):
+    every RestConf that was handed out holds exactly the options it was built from and those its owner applied since —
+    no later `NewRest`, and no option applied to another client's RestConf, changes it -/
+theorem C19_clients_independent (ops : List KOp) :
+    runClients Heap.init [] ops = specClients [] ops :=
+  runClients_eq_spec ops Heap.init [] heapInv_init
+
+/-- … in particular: a client made first, ANY number of further `NewRest` calls (any types, any options) after it, and only
+    then a look at the RestConf the first client keeps (and the chain `BuildMiddleware()` makes of it at that moment):
+    it holds exactly the first call's options -/
+theorem C19_late_build (opts : List Opt) (between : List (TypeId × List Opt)) :
+    runClients Heap.init [] (.new 0 opts :: between.map (fun x => KOp.new x.1 x.2) ++ [.again 0])
+      = .made 0 (specConf opts) :: between.map (fun x => KOut.made x.1 (specConf x.2)) ++ [.seen (specConf opts)] := by
+  rw [runClients_eq_spec _ Heap.init [] heapInv_init]
+  simp only [absr, List.map_nil, List.cons_append, specClients, List.nil_append]
+  rw [late_aux]
+
+/-- why memory matters: the model's `append` DOES write in place, so two RestConf values whose slices share an array
+    with room (a by-value copy, or a recycled scratch value) are not independent — appending through one overwrites
+    what the other reads. The invariant `HeapInv` (fresh arrays per `NewWith`) is what rules this out. -/
+theorem C19_shared_array_not_independent :
+    let h : Heap := [[], [1, 0]]
+    let s : Nat × Nat := (1, 1)            -- both headers: array 1, length 1, capacity 2
+    let (h1, s1) := appendSl h s 7        -- owner A appends 7
+    let (h2, _) := appendSl h1 s 8        -- owner B appends 8 through ITS copy of the header
+    readSl h1 s1 = [1, 7] ∧ readSl h2 s1 = [1, 8] := by decide
+
+example : runClients Heap.init [] [.new 0 [.use 1, .use 2, .use 3], .new 1 [.use 4, .enableLogging true], .again 0,
+      .withOpt 0 (.use 5), .again 0, .again 1] =
+    [.made 0 ⟨"", 0, false, none, [1, 2, 3]⟩, .made 1 ⟨"", 0, true, none, [4]⟩, .seen ⟨"", 0, false, none, [1, 2, 3]⟩,
+     .done, .seen ⟨"", 0, false, none, [1, 2, 3, 5]⟩, .seen ⟨"", 0, true, none, [4]⟩] := by decide
 
 end ShootVerif.Runtime
